@@ -63,3 +63,20 @@ Theorem C14_single_insertion_inner_images `{Sig} : forall E n ks e nd1 nd2 t c w
     else beta w i x.
 Proof. exact insert_vertex_topology_inner. Qed.
 Print Assumptions C14_single_insertion_inner_images.
+
+(** The new vertex lies at the requested position, under its identifier, and nothing else moves: after a successful
+    single insertion the vertex identified by the orbit minimum of the first spare dart in the resulting map carries
+    [new_vertex v1 v2 t] -- the point at relative position t on the segment, the midpoint when no position is given --
+    where v1, v2 are the coordinates found under the identifiers of the two end points of the edge, and every other
+    coordinate slot is as it was. *)
+From HC Require Import Map2.Orbit2Proofs Map2.SewData.
+Theorem C14_single_insertion_position `{Sig} : forall E n ks e nd1 nd2 t c w cnt w' cnt',
+  dom_ok E n -> wf2 n w -> okd n w e -> okd n w nd1 -> (beta w 2 e <> 0 -> okd n w nd2) ->
+  ~ (beta w 1 e = 0 /\ beta w 2 e = 0) ->
+  run E (insert_vertex_on_edge n ks e nd1 nd2 t) c w cnt = (Done tt, w', cnt') ->
+  exists i1 i2 i' v1 v2,
+    is_vid n w e i1 /\ is_vid n w (if beta w 2 e =? 0 then beta w 1 e else beta w 2 e) i2 /\
+    vertex w i1 = Some v1 /\ vertex w i2 = Some v2 /\
+    is_vid n w' nd1 i' /\ vertex w' i' = Some (new_vertex v1 v2 t) /\ forall d, d <> i' -> vertex w' d = vertex w d.
+Proof. exact insert_vertex_position. Qed.
+Print Assumptions C14_single_insertion_position.
